@@ -2,7 +2,7 @@
 (* B2 second pass / B3 for C11 and C12: the routes the real pipeline returned (correct_json_route_list,       *)
 (* deduplicate_disjunctions, requests_aggregation, compute_path_dsjctn, find_reversed_path) are JUDGED here.  *)
 (*                                                                                                            *)
-(* One trace = one network:  [name, n, links = <<<<a, b, len>>, ...>> (directed arcs as the GENERATOR of the   *)
+(* One trace = one network:  [name, n, links = <<<<a, b, len, k>>, ...>> (directed arcs as the GENERATOR of the *)
 (* topology knows them, not as gnpy's OMS/isdisjoint see them), opt, tol (length units), ev].  One event = one batch handed   *)
 (* to the pipeline, with what came back for every request: a blocking reason, or the element list projected   *)
 (* to                                                                                                         *)
@@ -28,12 +28,17 @@ vars == <<tid, i, viol>>
 
 GraphOfTrace(tr) ==
   LET L    == SeqRange(tr.links)
-      arcs == {<<l[1], l[2]>> : l \in L}
-  IN  [n |-> tr.n, arcs |-> arcs, len |-> [a \in arcs |-> (CHOOSE l \in L : l[1] = a[1] /\ l[2] = a[2])[3]]]
+      arcs == {<<l[1], l[2], l[4]>> : l \in L}
+  IN  [n |-> tr.n, arcs |-> arcs,
+       len |-> [a \in arcs |-> (CHOOSE l \in L : l[1] = a[1] /\ l[2] = a[2] /\ l[4] = a[3])[3]]]
 
-\* the abstract outcome the clauses of Routing.tla speak about
+\* the abstract outcome the clauses of Routing.tla speak about: the arc of a segment is given by its end sites and
+\* by which of two parallel links its elements belong to (index of the first identified element)
+ArcOfHop(h)  == <<h.a, h.b, IF h.ids = <<>> THEN 0 ELSE h.ids[1] \div 1000000>>
+RouteOf(ob)  == [k \in 1..Len(ob.hops) |-> ArcOfHop(ob.hops[k])]
 Abstract(e) == [err |-> e.err,
-                res |-> [k \in 1..Len(e.res) |-> [st |-> e.res[k].st, p |-> e.res[k].p.sites, rev |-> e.res[k].rev.sites]]]
+                res |-> [k \in 1..Len(e.res) |->
+                           [st |-> e.res[k].st, p |-> RouteOf(e.res[k].p), rev |-> RouteOf(e.res[k].rev)]]]
 
 \* ---- clauses about the concrete element list (what "a real path of the designed network" means)
 EndsAtTransceivers(s, d, ob) == ob.src = s /\ ob.dst = d
@@ -44,8 +49,8 @@ ElementsFollowEdges(G, ob, tol) ==
        LET h == ob.hops[k]
        IN  /\ h.a = ob.sites[k] /\ h.b = ob.sites[k + 1]
            /\ h.ids # <<>>
-           /\ \A j \in 1..Len(h.ids) : h.ids[j] = LineEl(h.a, h.b)           \* only elements of that very link
-           /\ <<h.a, h.b>> \in G.arcs => Within(h.len, G.len[<<h.a, h.b>>], tol)   \* all of them
+           /\ \A j \in 1..Len(h.ids) : h.ids[j] = LineEl(ArcOfHop(h))        \* only elements of that very link
+           /\ ArcOfHop(h) \in G.arcs => Within(h.len, G.len[ArcOfHop(h)], tol)  \* all of them
 NoElementTwice(ob) == ob.nel = ob.nuniq
 
 ConcreteViol(G, e, k, tol) ==
